@@ -27,7 +27,7 @@ VDupCriterion(req) == \E i, j \in DOMAIN req.criteria : i # j /\ req.criteria[i]
 VRange(req) == \E i \in DOMAIN req.criteria :
                   "valuesRange" \in DOMAIN req.criteria[i] /\ req.criteria[i].valuesRange.max <= req.criteria[i].valuesRange.min
 VMissingValue(req) == \E i \in DOMAIN req.knownAlternatives : ~(CritIdsOf(req) \subseteq DOMAIN req.knownAlternatives[i].criteria)
-VUnknownAlternative(req) == ~(SeqSet(req.choseToMake) \subseteq KnownIds(req))
+VUnknownAlternative(req) == ~(SeqSet(G(req, "choseToMake", <<>>)) \subseteq KnownIds(req))
 
 MP(req) == G(req, "methodParameters", <<>>)
 VWeights(req) ==
